@@ -56,12 +56,24 @@ func verifyFunction(prog *Program, specs *Specs, key string) (res *FuncResult) {
 	typeTagMu.Lock()
 	defer typeTagMu.Unlock()
 	r.verifyTop()
+	if r.fatal == "" && !r.discover {
+		for _, uf := range r.unfiredAnchors() {
+			// the contract speaks about a program point (a lock, a call, a go statement) that the code no longer has:
+			// an obligation that cannot be discharged, reported like any other
+			a := uf[strings.LastIndex(uf, " ")+1:]
+			o := &Obligation{Name: funcKey(fn) + "/anchor@" + a, Kind: "assert", Func: funcKey(fn), Props: r.spec.Props,
+				Pos: r.posString(fn.Pos()), Text: "the contract's anchor " + a + " matches a program point of the function",
+				mark: r.ctx.Mark(), goal: tFalse, ctx: r.ctx}
+			r.obls = append(r.obls, o)
+		}
+	}
 	for _, o := range r.obls {
 		// branch conditions that are defined in the obligation's prefix
 		for i, c := range r.conds {
 			if r.condMark[i] <= o.mark {
 				o.splitConds = append(o.splitConds, c)
 				o.splitPos = append(o.splitPos, r.condPos[i])
+				o.splitReach = append(o.splitReach, r.condReach[i])
 			}
 		}
 		if t, ok := r.knownExcl[o.Name]; ok {
@@ -349,6 +361,38 @@ func (r *Run) verifyTop() {
 		}
 	}
 	for i, c := range r.spec.Ensures {
+		if c.Label != "" && r.spec.PerSite[c.Label] {
+			// one obligation per return site, in that site's own state (no merge): for heavy clauses of functions with
+			// many exits
+			for k, rp := range fr.rets {
+				senv := &Env{r: r, vars: map[string]Val{}, oldVars: penv.vars, st: rp.st, old: fr.entry, pkg: penv.pkg, specPkg: penv.specPkg}
+				for kk, v := range penv.vars {
+					senv.vars[kk] = v
+				}
+				for ri, n := range rn {
+					senv.vars[n] = rp.vals[ri]
+					senv.vars[fmt.Sprintf("result%d", ri)] = rp.vals[ri]
+				}
+				if nres == 1 {
+					senv.vars["result"] = rp.vals[0]
+				}
+				parts := senv.evalBoolParts(c.E)
+				if senv.err != nil {
+					r.fatal = fmt.Sprintf("%s ensures %s at return %d: %v", funcKey(fn), c.Label, k+1, senv.err)
+					return
+				}
+				for pi, g := range parts {
+					name := fmt.Sprintf("%s/post#%s@r%d", funcKey(fn), c.Label, k+1)
+					if len(parts) > 1 {
+						name += fmt.Sprintf(".%d", pi+1)
+					}
+					o := &Obligation{Name: name, Kind: "post", Func: funcKey(fn), Props: r.clauseProps(fr, c),
+						Pos: r.posString(rp.pos), Text: c.Text, mark: r.ctx.Mark(), hyps: []Term{rp.reach}, goal: g, ctx: r.ctx}
+					r.obls = append(r.obls, o)
+				}
+			}
+			continue
+		}
 		parts := env.evalBoolParts(c.E)
 		if env.err != nil {
 			r.fatal = fmt.Sprintf("%s ensures %d: %v", funcKey(fn), i+1, env.err)
@@ -592,8 +636,8 @@ func discharge(o *Obligation, timeoutS int) {
 		o.Result = &res
 		return
 	}
-	// stage 0: the cone-of-influence slice (an unsat there is a valid discharge)
-	sq, kept, nall := o.ctx.SlicedQuery(o.mark, o.hyps, o.goal)
+	// stage 0: the cone-of-influence slice of the path-filtered query (an unsat there is a valid discharge)
+	sq, kept, nall := o.ctx.PathQuery(o.mark, o.hyps, o.goal, true)
 	if dumpSliceDir != "" {
 		os.MkdirAll(dumpSliceDir, 0o755)
 		os.WriteFile(filepath.Join(dumpSliceDir, sanitize(o.Name)+".slice.smt2"), []byte(sq), 0o644)
@@ -603,6 +647,15 @@ func discharge(o *Obligation, timeoutS int) {
 		if sr.Status == "unsat" {
 			sr.Solver = "z3-new/slice"
 			o.Result = &sr
+			return
+		}
+	}
+	// stage 1: the path-filtered query without the cone (assumptions of blocks off the path dropped: unsat is valid)
+	if pq, pkept, _ := o.ctx.PathQuery(o.mark, o.hyps, o.goal, false); pkept < nall {
+		pr := solve(o.Name+".path", pq, t, false)
+		if pr.Status == "unsat" {
+			pr.Solver += "/path"
+			o.Result = &pr
 			return
 		}
 	}
@@ -731,29 +784,51 @@ func explain(o *Obligation, timeoutS int) string {
 		return ""
 	}
 	var names []string
-	for _, c := range o.splitConds {
-		names = append(names, c.S)
+	for i, c := range o.splitConds {
+		names = append(names, c.S, o.splitReach[i].S)
 	}
-	q := o.ctx.Query(o.mark, o.hyps, o.goal) + "(get-value (" + strings.Join(names, " ") + "))\n"
-	res := solveWith("z3", o.Name+".explain", q, timeoutS)
+	base := o.ctx.Query(o.mark, o.hyps, o.goal)
+	tail := "(get-value (" + strings.Join(names, " ") + "))\n"
+	res := solveWith("z3", o.Name+".explain", base+tail, timeoutS)
 	if res.Status != "sat" {
-		res = solveWith("z3-new", o.Name+".explain", q, timeoutS)
+		res = solveWith("z3-new", o.Name+".explain", base+tail, timeoutS)
 	}
+	note := ""
 	if res.Status != "sat" {
-		return "(no model: " + res.Status + ")"
+		// no model of the real query: look at the relaxation without the quantified assumptions; a model of it is only a
+		// candidate (a hint where to look), never evidence
+		var keep []string
+		for _, ln := range strings.Split(base, "\n") {
+			if strings.Contains(ln, "(forall ") || strings.Contains(ln, "(exists ") {
+				continue
+			}
+			keep = append(keep, ln)
+		}
+		res = solveWith("z3-new", o.Name+".explain-relaxed", strings.Join(keep, "\n")+tail, timeoutS)
+		if res.Status != "sat" {
+			return "(no model: " + res.Status + ", also none of the quantifier-free relaxation)\n"
+		}
+		note = "    (candidate only: model of the relaxation WITHOUT quantified assumptions)\n"
 	}
 	raw := res.Raw
-	var b strings.Builder
-	for i, c := range o.splitConds {
-		k := strings.Index(raw, "("+c.S+" ")
-		val := "?"
-		if k >= 0 {
-			rest := raw[k+len(c.S)+2:]
-			if e := strings.IndexAny(rest, ")\n"); e >= 0 {
-				val = strings.TrimSpace(rest[:e])
-			}
+	val := func(name string) string {
+		k := strings.Index(raw, "("+name+" ")
+		if k < 0 {
+			return "?"
 		}
-		fmt.Fprintf(&b, "    %-5s %s\n", val, o.splitPos[i])
+		rest := raw[k+len(name)+2:]
+		if e := strings.IndexAny(rest, ")\n"); e >= 0 {
+			return strings.TrimSpace(rest[:e])
+		}
+		return "?"
+	}
+	var b strings.Builder
+	b.WriteString(note)
+	for i, c := range o.splitConds {
+		if val(o.splitReach[i].S) != "true" {
+			continue // branch not on the model's path
+		}
+		fmt.Fprintf(&b, "    %-5s %s\n", val(c.S), o.splitPos[i])
 	}
 	return b.String()
 }
